@@ -202,16 +202,16 @@ theorem divFrame_spec {c : Client} {d : Device} (hI : Inv c d) :
 
 /-! ### acknowledgement -/
 
-theorem ackSeen_ack (c : Client) : ackSeen c .ack = (true, 0) := by
+theorem ackSeen_ack (c : Client) (t : Nat) : ackSeen c .ack t = (true, 0) := by
   unfold ackSeen; split <;> rfl
 
-theorem ackSeen_fail (c : Client) (o : Outcome) (ha : c.ackSupported = true) (hf : o ≠ .ack) :
-    (ackSeen c o).1 = false := by
+theorem ackSeen_fail (c : Client) (o : Outcome) (t : Nat) (ha : c.ackSupported = true) (hf : o ≠ .ack) :
+    (ackSeen c o t).1 = false := by
   unfold ackSeen
   rw [ha]
   cases o <;> first | rfl | exact absurd rfl hf
 
-theorem ackSeen_time (c : Client) (o : Outcome) : (ackSeen c o).2 ≤ 10 := by
+theorem ackSeen_time (c : Client) (o : Outcome) (t : Nat) : (ackSeen c o t).2 ≤ t := by
   unfold ackSeen
   split
   · exact Nat.zero_le _
@@ -227,11 +227,11 @@ def divFail (c : Client) : Client := { c with divResync := true }
 
 theorem writeEnable_ok (c : Client) (d : Device) (o : Outcome) (f : Bytes)
     (h : frameEnable (enRequest c) c.n = .ok f) :
-    writeEnable c d o = (if (ackSeen c o).1 then enAck c else enFail c,
-      if applies o then devApplyEn d f else d, { sent := [f], time := (ackSeen c o).2 }) := by
+    writeEnable c d o = (if (ackSeen c o Gen.Comm.ackTimeoutEnable).1 then enAck c else enFail c,
+      if applies o then devApplyEn d f else d, { sent := [f], time := (ackSeen c o Gen.Comm.ackTimeoutEnable).2 }) := by
   unfold writeEnable
   rw [h]
-  generalize ackSeen c o = p
+  generalize ackSeen c o Gen.Comm.ackTimeoutEnable = p
   obtain ⟨s, t⟩ := p
   cases s <;> rfl
 
@@ -243,11 +243,11 @@ theorem writeEnable_err (c : Client) (d : Device) (o : Outcome) (e : Err)
 
 theorem writeDiv_ok (c : Client) (d : Device) (o : Outcome) (f : Bytes)
     (h : frameDiv (divRequest c) c.n = .ok f) :
-    writeDiv c d o = (if (ackSeen c o).1 then divAck c else divFail c,
-      if applies o then devApplyDiv d f else d, { sent := [f], time := (ackSeen c o).2 }) := by
+    writeDiv c d o = (if (ackSeen c o Gen.Comm.ackTimeoutDiv).1 then divAck c else divFail c,
+      if applies o then devApplyDiv d f else d, { sent := [f], time := (ackSeen c o Gen.Comm.ackTimeoutDiv).2 }) := by
   unfold writeDiv
   rw [h]
-  generalize ackSeen c o = p
+  generalize ackSeen c o Gen.Comm.ackTimeoutDiv = p
   obtain ⟨s, t⟩ := p
   cases s <;> rfl
 
@@ -310,12 +310,12 @@ theorem writeDiv_frame (c : Client) (d : Device) (o : Outcome) :
 theorem writeEnable_time (c : Client) (d : Device) (o : Outcome) : (writeEnable c d o).2.2.time ≤ 10 := by
   cases h : frameEnable (enRequest c) c.n with
   | error e => rw [writeEnable_err c d o e h]; exact Nat.zero_le _
-  | ok f => rw [writeEnable_ok c d o f h]; exact ackSeen_time c o
+  | ok f => rw [writeEnable_ok c d o f h]; exact ackSeen_time c o _
 
 theorem writeDiv_time (c : Client) (d : Device) (o : Outcome) : (writeDiv c d o).2.2.time ≤ 10 := by
   cases h : frameDiv (divRequest c) c.n with
   | error e => rw [writeDiv_err c d o e h]; exact Nat.zero_le _
-  | ok f => rw [writeDiv_ok c d o f h]; exact ackSeen_time c o
+  | ok f => rw [writeDiv_ok c d o f h]; exact ackSeen_time c o _
 
 /-- a request that is not positively acknowledged leaves the reported enable state alone -/
 theorem writeEnable_failed (c : Client) (d : Device) (o : Outcome) (ha : c.ackSupported = true)
@@ -323,28 +323,28 @@ theorem writeEnable_failed (c : Client) (d : Device) (o : Outcome) (ha : c.ackSu
     (writeEnable c d o).1.enNow = c.enNow ∧ (writeEnable c d o).1.copyEn = c.copyEn := by
   cases h : frameEnable (enRequest c) c.n with
   | error e => rw [writeEnable_err c d o e h]; exact ⟨rfl, rfl⟩
-  | ok f => rw [writeEnable_ok c d o f h, ackSeen_fail c o ha hf]; exact ⟨rfl, rfl⟩
+  | ok f => rw [writeEnable_ok c d o f h, ackSeen_fail c o _ ha hf]; exact ⟨rfl, rfl⟩
 
 theorem writeDiv_failed (c : Client) (d : Device) (o : Outcome) (ha : c.ackSupported = true)
     (hf : o ≠ .ack) :
     (writeDiv c d o).1.divNow = c.divNow ∧ (writeDiv c d o).1.copyDiv = c.copyDiv := by
   cases h : frameDiv (divRequest c) c.n with
   | error e => rw [writeDiv_err c d o e h]; exact ⟨rfl, rfl⟩
-  | ok f => rw [writeDiv_ok c d o f h, ackSeen_fail c o ha hf]; exact ⟨rfl, rfl⟩
+  | ok f => rw [writeDiv_ok c d o f h, ackSeen_fail c o _ ha hf]; exact ⟨rfl, rfl⟩
 
 /-- under `Inv` the enable request is always built and emitted; the device (if it applies it) gets
     an `n`-vector, the requested one unless the view was in doubt -/
 theorem writeEnable_char {c : Client} {d : Device} (hI : Inv c d) (o : Outcome) :
     ∃ f en', f.getD 3 0 = 6 ∧ en'.length = c.n ∧ (DoubtEn c d → en' = c.enNew) ∧
-      writeEnable c d o = (if (ackSeen c o).1 then enAck c else enFail c,
-        if applies o then { d with en := en' } else d, { sent := [f], time := (ackSeen c o).2 }) := by
+      writeEnable c d o = (if (ackSeen c o Gen.Comm.ackTimeoutEnable).1 then enAck c else enFail c,
+        if applies o then { d with en := en' } else d, { sent := [f], time := (ackSeen c o Gen.Comm.ackTimeoutEnable).2 }) := by
   obtain ⟨f, en', hf, h6, hap, hl, hD⟩ := enFrame_spec hI
   exact ⟨f, en', h6, hl, hD, by rw [writeEnable_ok c d o f hf, hap]⟩
 
 theorem writeDiv_char {c : Client} {d : Device} (hI : Inv c d) (o : Outcome) :
     ∃ f dv', f.getD 3 0 = 7 ∧ dv'.length = c.n ∧ (DoubtDiv c d → dv' = c.divNew) ∧
-      writeDiv c d o = (if (ackSeen c o).1 then divAck c else divFail c,
-        if applies o then { d with div := dv' } else d, { sent := [f], time := (ackSeen c o).2 }) := by
+      writeDiv c d o = (if (ackSeen c o Gen.Comm.ackTimeoutDiv).1 then divAck c else divFail c,
+        if applies o then { d with div := dv' } else d, { sent := [f], time := (ackSeen c o Gen.Comm.ackTimeoutDiv).2 }) := by
   obtain ⟨f, dv', hf, h7, hap, hl, hD⟩ := divFrame_spec hI
   exact ⟨f, dv', h7, hl, hD, by rw [writeDiv_ok c d o f hf, hap]⟩
 
@@ -408,7 +408,7 @@ theorem writeEnable_doubt {c : Client} {d : Device} (hI : Inv c d) (hD : DoubtEn
     intro _
     exact hen hD
   · have ha : c.ackSupported = true := hg.resolve_right ho
-    rw [ackSeen_fail c o ha ho]
+    rw [ackSeen_fail c o _ ha ho]
     intro h
     exact absurd h (by simp [enFail])
 
@@ -423,7 +423,7 @@ theorem writeDiv_doubt {c : Client} {d : Device} (hI : Inv c d) (hD : DoubtDiv c
     intro _
     exact hdv hD
   · have ha : c.ackSupported = true := hg.resolve_right ho
-    rw [ackSeen_fail c o ha ho]
+    rw [ackSeen_fail c o _ ha ho]
     intro h
     exact absurd h (by simp [divFail])
 
